@@ -350,5 +350,15 @@ func (sc *specCtx) callInSpec(name string, args []Val) (Val, bool) {
 		vc.assume(implies(guard, vc.typeInvFact(n, t)))
 	}
 	_ = types.Typ
+	if tv, ok := res.(Tuple); ok {
+		return &NamedTuple{Vals: tv, Names: c.Results}, true
+	}
 	return res, true
+}
+
+// NamedTuple is the multi-result of a contracted function mentioned in a
+// lemma; components are selected by the contract's result names.
+type NamedTuple struct {
+	Vals  Tuple
+	Names []string
 }
